@@ -937,23 +937,27 @@ def errors(source, model, wcshelper):
 
     if model[prefix + 'sx'].vary and model[prefix + 'sy'].vary \
             and all(np.isfinite([err_sx, err_sy])):
-        # major axis error
+        # a/b are FWHM whereas sx/sy are sigmas
+        cc2fwhm = 2 * np.sqrt(2 * np.log(2))
+        # major axis error: displace the end of the major axis along itself
         ref = wcshelper.pix2sky(
             [xo + sx * np.cos(np.radians(theta)),
-             yo + sy * np.sin(np.radians(theta))])
+             yo + sx * np.sin(np.radians(theta))])
         offset = wcshelper.pix2sky(
             [xo + (sx + err_sx) * np.cos(np.radians(theta)),
-             yo + sy * np.sin(np.radians(theta))])
-        source.err_a = gcd(ref[0], ref[1], offset[0], offset[1]) * 3600
+             yo + (sx + err_sx) * np.sin(np.radians(theta))])
+        source.err_a = gcd(ref[0], ref[1], offset[0], offset[1]) \
+            * 3600 * cc2fwhm
 
-        # minor axis error
+        # minor axis error: same along the minor axis
         ref = wcshelper.pix2sky(
-            [xo + sx * np.cos(np.radians(theta + 90)),
+            [xo + sy * np.cos(np.radians(theta + 90)),
              yo + sy * np.sin(np.radians(theta + 90))])
         offset = wcshelper.pix2sky(
-            [xo + sx * np.cos(np.radians(theta + 90)),
+            [xo + (sy + err_sy) * np.cos(np.radians(theta + 90)),
              yo + (sy + err_sy) * np.sin(np.radians(theta + 90))])
-        source.err_b = gcd(ref[0], ref[1], offset[0], offset[1]) * 3600
+        source.err_b = gcd(ref[0], ref[1], offset[0], offset[1]) \
+            * 3600 * cc2fwhm
     else:
         source.err_a = source.err_b = ERR_MASK
 
